@@ -595,9 +595,10 @@ pub(crate) fn tokenize_file(ctx: &mut StaticsContext, file_id: FileId) -> Vec<To
                 lexer.index += 2;
             }
             _ => {
+                // the whole character, which may be more than one byte long
                 ctx.errors.push(Error::UnrecognizedToken(
                     file_id,
-                    lexer.byte_pos(lexer.index),
+                    lexer.span(lexer.index, lexer.index + 1),
                 ));
                 lexer.index += 1;
             }
